@@ -57,3 +57,268 @@ def replay_rekey_gate(inp):
     tr.active = False
     a.close(); b.close()
     return {"violates": bool(bad), "detail": bad[:3]}
+
+
+# ------------------------------------------------------------------------------------------------------------------------
+# a keepalive that falls due while a key re-exchange is under way: real client and server Transports over an in-memory link
+# whose one direction can hold a given message type back (a lost segment and its retransmission)
+class _Dir:
+    def __init__(self):
+        import collections
+        self.cv = threading.Condition()
+        self.items = collections.deque()
+        self.last_at = 0.0
+        self.closed = False
+
+    def put(self, data, delay):
+        with self.cv:
+            at = max(time.monotonic() + delay, self.last_at)
+            self.last_at = at
+            self.items.append([at, bytes(data)])
+            self.cv.notify_all()
+
+    def get(self, n, timeout):
+        end = None if timeout is None else time.monotonic() + timeout
+        with self.cv:
+            while True:
+                now = time.monotonic()
+                if self.items and self.items[0][0] <= now:
+                    it = self.items[0]
+                    out, it[1] = it[1][:n], it[1][n:]
+                    if not it[1]:
+                        self.items.popleft()
+                    return out
+                if self.closed:
+                    return b""
+                wait = None if end is None else end - now
+                if wait is not None and wait <= 0:
+                    raise socket.timeout()
+                if self.items:
+                    until = self.items[0][0] - now
+                    wait = until if wait is None else min(wait, until)
+                self.cv.wait(wait)
+
+
+class _End:
+    def __init__(self, out, inn):
+        self.out, self.inn, self.timeout, self.hold_next, self._closed = out, inn, None, 0.0, False
+
+    def settimeout(self, t):
+        self.timeout = t
+
+    def send(self, data):
+        if self._closed or self.out.closed:
+            raise EOFError()
+        extra, self.hold_next = self.hold_next, 0.0
+        self.out.put(data, getattr(self, 'latency', 0.005) + extra)
+        return len(data)
+
+    def recv(self, n):
+        return b"" if self._closed else self.inn.get(n, self.timeout)
+
+    def close(self):
+        self._closed = True
+        for d in (self.out, self.inn):
+            with d.cv:
+                d.closed = True
+                d.cv.notify_all()
+
+
+def _keepalive_case(initiator, hold, interval=0.3):
+    """initiator: 'client-threshold' | 'client-explicit' | 'server-explicit'; the client has keepalives on; the server's
+    NEWKEYS of the re-exchange is held back for `hold` seconds"""
+    import logging
+    import paramiko
+
+    class Srv(paramiko.ServerInterface):
+        def get_allowed_auths(self, u):
+            return "password"
+
+        def check_auth_password(self, u, p):
+            return paramiko.AUTH_SUCCESSFUL
+
+        def check_channel_request(self, kind, chanid):
+            return paramiko.OPEN_SUCCEEDED
+
+    c2s, s2c = _Dir(), _Dir()
+    cend, send = _End(c2s, s2c), _End(s2c, c2s)
+    seen = {"server_newkeys": 0}
+
+    class Hold(logging.Handler):
+        def emit(self, rec):
+            try:
+                msg = rec.getMessage()
+            except Exception:
+                return
+            if isinstance(msg, str) and msg.startswith("Write packet <newkeys>"):
+                seen["server_newkeys"] += 1
+                if seen["server_newkeys"] >= 2:
+                    send.hold_next = hold
+    lg = logging.getLogger("paramiko.verif.c11ka.%d" % id(cend))
+    lg.setLevel(logging.DEBUG)
+    lg.propagate = False
+    lg.addHandler(Hold())
+    ts = paramiko.Transport(send)
+    ts.set_log_channel(lg.name)
+    ts.set_hexdump(True)
+    ts.add_server_key(_hostkey())
+    tc = paramiko.Transport(cend)
+    why = []
+    try:
+        ts.start_server(event=threading.Event(), server=Srv())
+        tc.start_client(timeout=15)
+        tc.auth_password("u", "p")
+        ch = tc.open_session(timeout=15)
+        sch = ts.accept(15)
+        tc.set_keepalive(interval)
+        if initiator == "client-threshold":
+            tc.packetizer.REKEY_BYTES = 4096
+            for _ in range(8):
+                ch.sendall(b"x" * 1024)
+        elif initiator == "client-explicit":
+            threading.Thread(target=lambda: _quiet(tc.renegotiate_keys), daemon=True).start()
+        else:
+            threading.Thread(target=lambda: _quiet(ts.renegotiate_keys), daemon=True).start()
+        deadline = time.monotonic() + hold + 6
+        while time.monotonic() < deadline and seen["server_newkeys"] < 2:
+            time.sleep(0.02)
+        if seen["server_newkeys"] < 2:
+            return ["the re-exchange never got as far as the server's NEWKEYS (initiator %s)" % initiator]
+        time.sleep(hold + 1.5)
+        if not tc.is_active() or not ts.is_active():
+            why.append("the session went down while the re-exchange was waiting for the peer's NEWKEYS for %.1f s with a "
+                       "keepalive interval of %.1f s (initiator %s): client up=%s server up=%s, client error %r"
+                       % (hold, interval, initiator, tc.is_active(), ts.is_active(), tc.get_exception()))
+        else:
+            res = {}
+
+            def roundtrip():
+                try:
+                    ch.sendall(b"after")
+                    got = b""
+                    while not got.endswith(b"after"):
+                        d = sch.recv(65536)
+                        if not d:
+                            break
+                        got += d
+                    res["ok"] = got.endswith(b"after")
+                except Exception as e:
+                    res["err"] = repr(e)
+            th = threading.Thread(target=roundtrip, daemon=True)
+            th.start()
+            th.join(8)
+            if not res.get("ok"):
+                why.append("no data gets through after the re-exchange (initiator %s, NEWKEYS held %.1f s, keepalive %.1f s): %r"
+                           % (initiator, hold, interval, res or "still blocked after 8 s"))
+    except Exception as e:
+        why.append("scenario raised %r (initiator %s)" % (e, initiator))
+    finally:
+        for t in (tc, ts):
+            try:
+                t.close()
+            except Exception:
+                pass
+    return why
+
+
+def _quiet(fn):
+    try:
+        fn()
+    except Exception:
+        pass
+
+
+_HK = []
+
+
+def _hostkey():
+    if not _HK:
+        import paramiko
+        _HK.append(paramiko.ECDSAKey.generate())
+    return _HK[0]
+
+
+def keepalive_due_during_exchange(inp):
+    """a keepalive interval shorter than the time the peer's NEWKEYS takes to arrive, for every way a re-exchange starts"""
+    bad = []
+    for initiator in ("client-threshold", "client-explicit", "server-explicit"):
+        w = _keepalive_case(initiator, 1.2)
+        if w:
+            bad.append({"initiator": initiator, "why": w})
+    return {"violates": bool(bad), "detail": bad[:3]}
+
+
+def inflight_request_during_exchange(inp):
+    """a channel request that wants a reply is in flight towards a side that has just sent its KEXINIT: that side's transport
+    thread must get through the exchange (it alone can), the session stays up and the reply is delivered afterwards"""
+    import paramiko
+    from paramiko.common import cMSG_CHANNEL_REQUEST
+
+    class Srv(paramiko.ServerInterface):
+        def get_allowed_auths(self, u):
+            return "password"
+
+        def check_auth_password(self, u, p):
+            return paramiko.AUTH_SUCCESSFUL
+
+        def check_channel_request(self, kind, chanid):
+            return paramiko.OPEN_SUCCEEDED
+
+        def check_channel_shell_request(self, channel):
+            return True
+
+    bad = []
+    for who in ("client", "server"):
+        c2s, s2c = _Dir(), _Dir()
+        cend, send = _End(c2s, s2c), _End(s2c, c2s)
+        ts = paramiko.Transport(send)
+        ts.add_server_key(_hostkey())
+        tc = paramiko.Transport(cend)
+        try:
+            ts.start_server(event=threading.Event(), server=Srv())
+            tc.start_client(timeout=15)
+            tc.auth_password("u", "p")
+            ch = tc.open_session(timeout=15)
+            sch = ts.accept(15)
+            lat = 0.3
+            for e in (cend, send):
+                e.latency = lat
+            rekeyer, other, ochan = (tc, ts, sch) if who == "client" else (ts, tc, ch)
+            threading.Thread(target=lambda: _quiet(rekeyer.renegotiate_keys), daemon=True).start()
+            time.sleep(0.1)
+            m = Message()
+            m.add_byte(cMSG_CHANNEL_REQUEST)
+            m.add_int(ochan.remote_chanid)
+            m.add_string("exit-status" if who == "client" else "shell")
+            m.add_boolean(True)
+            if who == "client":
+                m.add_int(0)
+            other._send_user_message(m)          # leaves before the peer's KEXINIT has arrived
+            time.sleep(2.5)
+            if not rekeyer.clear_to_send.is_set() or not tc.is_active() or not ts.is_active():
+                bad.append({"initiator": who, "why": "2.5 s after a re-exchange started with a channel request in flight (link latency %.1f s) "
+                            "the exchange has not completed: clear to send %s, client up %s, server up %s"
+                            % (lat, rekeyer.clear_to_send.is_set(), tc.is_active(), ts.is_active())})
+                continue
+            res = {}
+
+            def rt():
+                try:
+                    ch.sendall(b"after")
+                    res["got"] = sch.recv(5)
+                except Exception as e:
+                    res["err"] = repr(e)
+            th = threading.Thread(target=rt, daemon=True)
+            th.start()
+            th.join(6)
+            if res.get("got") != b"after":
+                bad.append({"initiator": who, "why": "no data gets through after the re-exchange: %r" % (res or "blocked",)})
+        except Exception as e:
+            bad.append({"initiator": who, "why": "scenario raised %r" % (e,)})
+        finally:
+            for t in (tc, ts):
+                try:
+                    t.close()
+                except Exception:
+                    pass
+    return {"violates": bool(bad), "detail": bad}
